@@ -38,11 +38,11 @@ def fmt_trace(events, n=80):
     return out
 
 
-def execute_run(prop, seed, scn=None, replay=None, full=False, tier="quick"):
+def execute_run(prop, seed, scn=None, replay=None, full=False, tier="quick", extra=None):
     from sim import world, engine_s
 
     world.install()
-    return engine_s.execute(prop, seed, scn=scn, replay=replay, full=full, tier=tier)
+    return engine_s.execute(prop, seed, scn=scn, replay=replay, full=full, tier=tier, extra=extra)
 
 
 def in_child(fn, timeout=RUN_TIMEOUT):
@@ -54,9 +54,8 @@ def in_child(fn, timeout=RUN_TIMEOUT):
         try:
             os.close(r)
             try:
-                import faulthandler
-
-                faulthandler.dump_traceback_later(timeout - 1, exit=False, file=sys.stderr)
+                # (no faulthandler.dump_traceback_later here: its watchdog thread does not
+                # survive fork and re-arming it in a nested child deadlocks)
                 res = fn()
             except BaseException:
                 res = {"harness": "exception", "tb": traceback.format_exc()[-3000:]}
@@ -100,19 +99,18 @@ def in_child(fn, timeout=RUN_TIMEOUT):
 # ---------------------------------------------------------------- pool
 
 
-def worker_main(widx, nworkers, prop, base_seed, nruns, tier, wfd, deadline):
+def worker_main(widx, nworkers, prop, tasks, tier, wfd, deadline):
     from sim import world
 
     world.install()
     agg = new_agg()
-    for idx in range(widx, nruns, nworkers):
+    for idx, seed, extra in tasks[widx::nworkers]:
         if time.time() > deadline:
             agg["skipped"] += 1
             continue
-        seed = seed_for(base_seed, prop, idx)
         want_sample = idx < 3
-        res = in_child(lambda: execute_run(prop, seed, full=want_sample, tier=tier))
-        merge_run(agg, res, idx, seed, prop, tier)
+        res = in_child(lambda: execute_run(prop, seed, full=want_sample, tier=tier, extra=extra))
+        merge_run(agg, res, idx, seed, prop, tier, extra)
     data = json.dumps(agg, default=list).encode()
     with os.fdopen(wfd, "wb") as f:
         f.write(data)
@@ -126,9 +124,9 @@ def new_agg():
     }
 
 
-def merge_run(agg, res, idx, seed, prop, tier):
+def merge_run(agg, res, idx, seed, prop, tier, extra=None):
     if "harness" in res:
-        agg["harness"].append({"idx": idx, "seed": seed, "what": res["harness"], "tb": res.get("tb", "")[-1500:]})
+        agg["harness"].append({"idx": idx, "seed": seed, "extra": extra, "what": res["harness"], "tb": res.get("tb", "")[-1500:]})
         return
     agg["runs"] += 1
     agg["steps"] += res["steps"]
@@ -151,15 +149,17 @@ def merge_run(agg, res, idx, seed, prop, tier):
     if res["violations"]:
         agg["nviol"] += 1
         if len(agg["violations"]) < 40:
-            agg["violations"].append({"idx": idx, "seed": seed, "violations": res["violations"]})
+            agg["violations"].append({"idx": idx, "seed": seed, "extra": extra, "violations": res["violations"]})
     if len(agg["shapes"]) > 5000:
         agg["shapes"] = sorted(set(agg["shapes"]))
     if len(agg["astates"]) > 20000:
         agg["astates"] = sorted(set(agg["astates"]))
 
 
-def run_pool(prop, base_seed, nruns, tier, nworkers, wall_limit):
+def run_pool(prop, base_seed, nruns, tier, nworkers, wall_limit, tasks=None):
     deadline = time.time() + wall_limit
+    if tasks is None:
+        tasks = [(idx, seed_for(base_seed, prop, idx), None) for idx in range(nruns)]
     pipes = []
     for w in range(nworkers):
         r, wfd = os.pipe()
@@ -167,7 +167,7 @@ def run_pool(prop, base_seed, nruns, tier, nworkers, wall_limit):
         if pid == 0:
             os.close(r)
             try:
-                worker_main(w, nworkers, prop, base_seed, nruns, tier, wfd, deadline)
+                worker_main(w, nworkers, prop, tasks, tier, wfd, deadline)
             except BaseException:
                 traceback.print_exc()
                 os._exit(3)
